@@ -20,7 +20,9 @@ XSI = 'xmlns:xsi="http://www.w3.org/2001/XMLSchema-instance"'
 CFG = {"version": "1.0", "steps": 2}
 
 _XSD = """<xs:schema xmlns:xs="http://www.w3.org/2001/XMLSchema">
- <xs:complexType name="T0"><xs:sequence><xs:element name="v" type="xs:int" minOccurs="0"/></xs:sequence><xs:attribute name="k" type="xs:int"/></xs:complexType>
+ <xs:complexType name="T0"><xs:sequence><xs:element name="v" type="xs:int" minOccurs="0"/></xs:sequence><xs:attribute name="k" type="xs:anySimpleType"/></xs:complexType>
+ <xs:complexType name="T2"><xs:complexContent><xs:restriction base="T0"><xs:sequence><xs:element name="v" type="xs:int" minOccurs="0"/></xs:sequence>
+     <xs:attribute name="k" type="xs:integer"/></xs:restriction></xs:complexContent></xs:complexType>
  <xs:complexType name="T1"><xs:complexContent><xs:extension base="T0"><xs:sequence>
      <xs:element name="sub" minOccurs="0" maxOccurs="unbounded"><xs:complexType><xs:attribute name="k" type="xs:int"/></xs:complexType></xs:element>
    </xs:sequence></xs:extension></xs:complexContent></xs:complexType>
@@ -39,6 +41,10 @@ DOCS = [
     '<r %s><i k="1" xsi:type="T1"><sub k="1"/></i></r>' % XSI,                                              # duplicate key through the xsi:type'd content
     '<r><i k="3"/><f>2</f><x xmlns="urn:other"/></r>',                                                     # fixed violated + foreign child
     '<r %s><i k="1" xsi:type="T1"><sub k="7"/><sub k="7"/></i></r>' % XSI,                                  # duplicate keys among sub elements
+    '<r %s><i k="5" xsi:type="T2"/><i k="6" xsi:type="T2"/></r>' % XSI,                                    # xsi:type that retypes the key field (integer)
+    '<r><i k="1"/><i k="01"/></r>',                                                                        # distinct untyped key values, equal as integers
+    '<r %s><i k="1"/><note xmlns="urn:other" xsi:type="xs:string">x</note></r>' % XSI.replace('xmlns:xsi', 'xmlns:xs="http://www.w3.org/2001/XMLSchema" xmlns:xsi'),   # undeclared element with xsi:type under the lax wildcard
+    '<r %s><i k="1"/><note xmlns="urn:other" xsi:nil="true"/></r>' % XSI,                                  # the same undeclared tag, nilled
 ]
 OPS = ["is_valid", "validate", "iter_errors", "decode-lax", "decode-strict", "to_objects", "iter_errors-partial", "encode"]
 
@@ -93,7 +99,7 @@ def _run(schema, op, doc):
 def _probe(schema, doc):
     errs = [(e.reason, e.path) for e in schema.iter_errors(doc)]
     data, derrs = schema.decode(doc, validation='lax')
-    return schema.is_valid(doc), errs, data, [e.reason for e in derrs]
+    return not errs, errs, data, [e.reason for e in derrs]
 
 
 def pre_hist(fn, **kw):
@@ -143,6 +149,8 @@ def obligations(tier, seed):
     out = []
     for version in ("1.0", "1.1"):
         for o0 in range(len(OPS)):
+            if quick and not (OPS[o0] in ("is_valid", "decode-lax", "to_objects", "validate", "iter_errors-partial") and (version == "1.0" or o0 in (0, 3))):
+                continue
             if quick:
                 # one obligation per first operation: first document, second step and probe symbolic
                 out.append({"name": "history/%s/first=%s" % (version, OPS[o0]), "fn": "h_history", "pre": "pre_hist",
